@@ -552,6 +552,28 @@ class IntervalKind(AbsInt):
             return self.join(x, y)
         if name in ('numpy.isnan',):
             return ('bool', None)
+        if name in ('numpy.isclose', 'math.isclose') and len(a) >= 2:
+            # numpy: |x - y| <= atol + rtol * |y| (1e-8, 1e-5); math: |x - y| <= max(rel_tol * max(|x|, |y|), abs_tol) (1e-9, 0)
+            x, y = self.value(a[0], fr), self.value(a[1], fr)
+            kw = {k.arg: self.value(k.value, fr) for k in node.keywords}
+            pos = [self.value(z, fr) for z in a[2:]]
+            if not (isinstance(x, IV) and isinstance(y, IV)) or x.nan or y.nan or any(not isinstance(v_, IV) for v_ in list(kw.values()) + pos):
+                return ('bool', None)
+            if name == 'numpy.isclose':
+                rtol = pos[0] if pos else kw.get('rtol', IV(1e-5))
+                atol = pos[1] if len(pos) > 1 else kw.get('atol', IV(1e-8))
+                tol = add(atol, mul(rtol, absv(y)))
+            else:
+                rtol, atol = kw.get('rel_tol', IV(1e-9)), kw.get('abs_tol', IV(0.0))
+                tol = maximum(mul(rtol, maximum(absv(x), absv(y))), atol)
+            d = absv(sub(x, y))
+            if d.nan or tol.nan:
+                return ('bool', None)
+            if d.hi <= tol.lo:
+                return ('bool', True)
+            if d.lo > tol.hi:
+                return ('bool', False)
+            return ('bool', 'both' if (x.tight and y.exact) or (y.tight and x.exact) else None)
         if name in ('numpy.errstate', 'warnings.catch_warnings'):
             return TOP
         if name in ('numpy.clip',) and len(a) == 3:
